@@ -347,6 +347,35 @@ def p_C06(tier, seed):
                              scope(tier, 4, 6), adaptors=False, forget=False))
     nh, nk, no = scope(tier, (8, [16, 40], 200), (32, [16, 40, 100], 1000))
     f.merge(engines.engine_B("C06", ["pq", "dpq"], seed, nh, nk, no, check_every=4))
+    # mid-size states rich in TIES (6-24 elements over 3-4 priority values: whole subtrees of equal priorities),
+    # consumed from both ends in seeded interleavings - a sift that goes wrong only among equal priorities shows
+    # when the other end is looked at afterwards
+    import random
+    rng = random.Random(seed * 131 + 6)
+    cases = []
+    for kind in ("pq", "dpq"):
+        for i in range(scope(tier, 60, 400)):
+            ln = rng.choice([6, 7, 8, 10, 11, 14, 15, 20, 24])
+            keys = ["k%d" % j for j in range(ln)]
+            vals = rng.choice([[1, 5, 9], [0, 1], [1, 5, 8, 9], [3]])
+            steps = [{"op": "push", "k": k, "r": rng.choice(vals)} for k in keys]
+            for _ in range(rng.randint(0, 3)):
+                steps.append(rng.choice([{"op": "change_priority", "k": rng.choice(keys), "r": rng.choice(vals)},
+                                         {"op": "remove", "k": rng.choice(keys)},
+                                         {"op": "push", "k": "z%d" % rng.randint(0, 3), "r": rng.choice(vals)}]))
+            if kind == "pq":
+                steps += [{"op": "sorted", "mode": "iter", "calls": [0] * (ln + 6)}, {"op": "sorted", "mode": "vec"}]
+            else:
+                pats = [[0] * (ln + 6), [1] * (ln + 6), [0, 1] * (ln // 2 + 3), [1, 0] * (ln // 2 + 3), [0, 1, 1] * (ln // 3 + 2)]
+                pats += [[rng.randint(0, 1) for _ in range(ln + 6)] for _ in range(4)]
+                steps += [{"op": "sorted", "mode": "iter", "calls": cs} for cs in pats]
+                steps += [{"op": "sorted", "mode": "asc_vec"}, {"op": "sorted", "mode": "desc_vec"}]
+            cases.append({"case": [kind, "ties", i], "kind": kind, "hasher": "std", "universe": keys + ["z0", "z1", "z2", "z3"],
+                          "steps": steps, "probes": [], "wit": []})
+    t = engines.Findings()
+    t.stats["engines"].append({"engine": "X-ties", "cases": len(cases)})
+    engines.replay_and_validate(cases, vlib.workdir("C06_X"), "X-ties", t)
+    f.merge(t)
     return f
 
 
@@ -668,6 +697,10 @@ def p_C17(tier, seed):
                 out.append([{"op": op, "n": a}] + after)
         out.append([{"op": "shrink_to_fit"}] + after)
         out.append([{"op": "reserve", "n": 100}, {"op": "shrink_to_fit"}] + after)
+        # a failing request on a queue WITH spare capacity (which it must keep)
+        for op in ("try_reserve", "try_reserve_exact"):
+            for a in ("max", "max-1", "max/2", "max/8", "2^45"):
+                out.append([{"op": "reserve", "n": 100}, {"op": op, "n": a}, {"op": "try_reserve_exact", "n": 3}] + after)
         return out
     # executed on the queue the history built (a clone would have exact-fit capacities)
     f = engines.engine_A("C17", ["pq", "dpq"], n, mp, lambda p: False, ["contents", "sorted:pop", "sorted:pop_max"], tails=extra)
@@ -786,7 +819,7 @@ PROPS = {
     "C13": {"run": p_C13, "level": "model_checking",
             "relevant": lambda fl: fl["op"] in ("iter_calls", "into_calls")
             and fl["cause"].get("it") in ("iter", "iter_ref", "into_iter", "drain", "sorted")
-            and bool(set(fl["tags"]) & {"iter_dup", "iter_unknown", "iter_missing", "iter_after_none", "iter_len", "iter_hint", "iter_panic", "iter_last", "iter_position"})},
+            and bool(set(fl["tags"]) & {"iter_dup", "iter_unknown", "iter_missing", "iter_after_none", "iter_len", "iter_hint", "iter_panic", "iter_last", "iter_position", "iter_provided"})},
     "C14": {"run": p_C14, "level": "model_checking", "aborts": True,
             "relevant": lambda fl: fl["op"] in ("eq", "ne", "clone", "clone_from") or fl["cause_op"] in ("clone", "clone_from")
             or fl["phase"] == "hist"
